@@ -16,6 +16,7 @@ import (
 	"bufio"
 	"bytes"
 	"compress/gzip"
+	"crypto/sha256"
 	"encoding/json"
 	"errors"
 	"fmt"
@@ -62,6 +63,9 @@ type c12Op struct {
 	B string `json:"b,omitempty"`
 	N int    `json:"n,omitempty"`
 	D string `json:"d,omitempty"`
+	// R > 1: the data of the op is D repeated R times (bodies longer than the 32 KiB copy buffers; N of copyn counts
+	// bytes of the repeated data). Expanded by c12Expand before the case runs; long byte strings go to Coq as `brep`.
+	R int `json:"r,omitempty"`
 }
 type c12In struct {
 	Cfg    c12Cfg  `json:"cfg"`
@@ -579,6 +583,71 @@ func c12View(h http.Header, body []byte) ([]byte, bool) {
 	return body, false
 }
 
+// c12Expand replaces the repeated data of the ops (R > 1) by the data itself
+func c12Expand(in *c12In) *c12In {
+	any := false
+	for _, o := range in.Script {
+		if o.R > 1 {
+			any = true
+		}
+	}
+	for i := range in.Seq {
+		for _, o := range in.Seq[i].Script {
+			if o.R > 1 {
+				any = true
+			}
+		}
+	}
+	if !any {
+		return in
+	}
+	out := *in
+	exp := func(ops []c12Op) []c12Op {
+		r := append([]c12Op{}, ops...)
+		for i := range r {
+			if r[i].R > 1 {
+				r[i].D, r[i].R = strings.Repeat(r[i].D, r[i].R), 0
+			}
+		}
+		return r
+	}
+	out.Script = exp(in.Script)
+	out.Seq = append([]c12In{}, in.Seq...)
+	for i := range out.Seq {
+		out.Seq[i].Script = exp(out.Seq[i].Script)
+	}
+	return &out
+}
+
+// c12Bytes is cBytes for byte strings of any length: Coq cannot read a literal of tens of thousands of bytes,
+// so the longest periodic stretch of a long string (period <= 64) is written as `brep k unit`
+func c12Bytes(b []byte) string {
+	const long = 16384
+	if len(b) <= long {
+		return cBytes(b)
+	}
+	bestI, bestJ, bestP := 0, 0, 0
+	for p := 1; p <= 64; p++ {
+		i := 0
+		for k := 0; k+p <= len(b); k++ {
+			if k+p == len(b) || b[k] != b[k+p] {
+				// b[i..k+p) has period p
+				if k+p-i > bestJ-bestI {
+					bestI, bestJ, bestP = i, k+p, p
+				}
+				i = k + 1
+			}
+		}
+	}
+	if bestP == 0 || bestJ-bestI < 2*bestP {
+		return cBytes(b)
+	}
+	n := (bestJ - bestI) / bestP
+	mid := bestI + n*bestP
+	return "(" + c12Bytes(b[:bestI]) + " ++ brep " + cNat(n) + " " + cBytes(b[bestI:bestI+bestP]) + " ++ " + c12Bytes(b[mid:]) + ")"
+}
+func c12Str(s string) string { return c12Bytes([]byte(s)) }
+
 func c12Texts(codes ...int) string {
 	seen := map[int]bool{}
 	var it []string
@@ -601,13 +670,13 @@ func c12OpsTerm(ops []c12Op) string {
 		case "wh":
 			it = append(it, cApp("OWh", cZ(int64(o.N))))
 		case "w":
-			it = append(it, cApp("OWr", cStr(o.D)))
+			it = append(it, cApp("OWr", c12Str(o.D)))
 		case "f":
 			it = append(it, "OFl")
 		case "panic":
 			it = append(it, cApp("OPanic", c12PanicTerm(o.A)))
 		case "rf":
-			it = append(it, cApp("ORf", cStr(o.D)))
+			it = append(it, cApp("ORf", c12Str(o.D)))
 		}
 	}
 	return cList(it)
@@ -804,15 +873,23 @@ func c12Observe(r1 c12Resp, sup int) c12Observed {
 	mime := r1.Header.Get("Content-Type") == "text/x-c12"
 	loc := r1.Header.Get("Location") == "/there"
 	_, etag := r1.Header["Etag"]
-	term := cApp("Build_obs", cZ(int64(r1.Status)), cBool(garbled), cBytes(view), cNat(sup), xprobe, cBool(xcfg), cBool(xdel), cBool(mime), cBool(loc), cBool(etag))
+	term := cApp("Build_obs", cZ(int64(r1.Status)), cBool(garbled), c12Bytes(view), cNat(sup), xprobe, cBool(xcfg), cBool(xdel), cBool(mime), cBool(loc), cBool(etag))
 	bh := r1.Body
 	if len(bh) > 80 {
 		bh = bh[:80]
 	}
 	o := map[string]interface{}{"status": r1.Status, "ce": r1.Header["Content-Encoding"], "ct": r1.Header.Get("Content-Type"),
-		"view": fmt.Sprintf("%q", view), "wire_head": fmt.Sprintf("%q", bh), "garbled": garbled, "superfluous_writeheader": sup,
+		"view": c12Quote(view), "wire_head": fmt.Sprintf("%q", bh), "garbled": garbled, "superfluous_writeheader": sup,
 		"x_c12": r1.Header["X-C12"], "etag": r1.Header["Etag"], "content_length": r1.Header["Content-Length"], "wire_len": len(r1.Body), "x_cfg": xcfg, "x_del": xdel, "location": r1.Header.Get("Location"), "err": r1.Err}
 	return c12Observed{term: term, respOK: respOK, sup: sup, obs: o}
+}
+
+// c12Quote quotes a view for the record of the case; a long one is cut (its length is given)
+func c12Quote(view []byte) string {
+	if len(view) > 16384 {
+		return fmt.Sprintf("%q... (%d bytes, sha256 %x)", view[:200], len(view), sha256.Sum256(view))
+	}
+	return fmt.Sprintf("%q", view)
 }
 
 func c12ReqTerm(in *c12In) string {
@@ -951,7 +1028,7 @@ func c12RunSeq(in *c12In) Result {
 }
 
 func c12Run(in0 interface{}) Result {
-	in := in0.(*c12In)
+	in := c12Expand(in0.(*c12In))
 	c12Register()
 	if len(in.Seq) > 0 {
 		return c12RunSeq(in)
@@ -1228,6 +1305,40 @@ func c12EmptyCopyCases(r *Rand) []*c12In {
 	return out
 }
 
+// c12LongCopyCases: copies with the implicit header from a source longer than (or exactly as long as, or one
+// byte longer than) ResponseBuffer's pooled 32 KiB copy buffer: ReadFrom passes the first buffer-full through
+// Write (implicit header, decision about buffering) and the rest through its streaming / buffering path -
+// streamed (.txt), buffered and rendered (.html), buffered and passed on (302, error value), through gzip,
+// followed by further writes, and with the header written first (the old entry into the two paths)
+func c12LongCopyCases() []*c12In {
+	unit := "0123456789abcdef"
+	xp := c12Op{K: "set", A: "X-C12", B: "long"}
+	html := c12Op{K: "set", A: "Content-Type", B: "text/html; charset=utf-8"}
+	var out []*c12In
+	for i, k := range []string{"copy", "rf", "copyn"} {
+		for j, n := range []int{2048, 2049, 2500} { // 32768, 32784, 40000 bytes
+			big := c12Op{K: k, D: unit, R: n, N: n*len(unit) - 3}
+			if j == 1 {
+				big = c12Op{K: k, D: unit, R: n, N: 32769}
+			}
+			c := c12Cfg{Templates: true, Log: i == 1, Header: j == 2, Gzip: i == 2}
+			out = append(out,
+				&c12In{Cfg: c, Path: "/x.txt", AE: true, Script: []c12Op{xp, big}},
+				&c12In{Cfg: c, Path: "/x.html", AE: j == 0, Script: []c12Op{xp, big, {K: "w", D: "<p>tail</p>"}}},
+				&c12In{Cfg: c, Path: "/x", Script: []c12Op{xp, html, big}, Ret: []int{0, 302, 0}[j], Err: j == 2})
+		}
+		c := c12Cfg{Templates: true, Errors: "plain"}
+		out = append(out,
+			&c12In{Cfg: c, Path: "/x.html", Script: []c12Op{xp, {K: "wh", N: 203}, {K: k, D: unit, R: 2500, N: 39000}}},
+			&c12In{Cfg: c, Path: "/x.txt", Script: []c12Op{xp, {K: "wh", N: 203}, {K: k, D: unit, R: 2500, N: 39000}}},
+			&c12In{Cfg: c12Cfg{Log: true, Gzip: i == 0}, Path: "/x.txt", AE: true, Script: []c12Op{xp, {K: k, D: unit, R: 2500, N: 39000}}},
+			// a page that is a failing template, longer than the copy buffer
+			&c12In{Cfg: c, Path: "/x.html", Script: []c12Op{xp, {K: "w", D: "{{.NoSuchField}}"}, {K: k, D: unit, R: 2500, N: 39000}}},
+			&c12In{Cfg: c, Path: "/x.html", Script: []c12Op{xp, {K: k, D: unit, R: 2500, N: 40000}, {K: "w", D: "{{.NoSuchField}}"}}})
+	}
+	return out
+}
+
 func c12RandomScript(r *Rand) c12In {
 	var in c12In
 	var ops []c12Op
@@ -1484,6 +1595,9 @@ func c12Gen(r *Rand, tier string) []interface{} {
 		out = append(out, in)
 	}
 	for _, in := range c12EmptyCopyCases(r) {
+		out = append(out, in)
+	}
+	for _, in := range c12LongCopyCases() {
 		out = append(out, in)
 	}
 	// limits: a body over / under the limit read before / after writing
